@@ -45,6 +45,16 @@ fn line(d: &SolarDay, first: bool, prev: Option<&SolarDay>) -> String {
 }
 
 pub fn run(ctx: &Ctx) -> usize {
-  let wins = day_windows(ctx, 701, 300, 300, 2);
+  let mut wins = day_windows(ctx, 701, 300, 300, 2);
+  if ctx.quick() {
+    // two days in mid-January of EVERY year: the weeks before the lunar new year are where one wrong entry of the
+    // leap-month table (or one mislabelled lunation) shows in the civil <-> lunar conversion
+    for y in 30..=9998i64 {
+      if (236..=240).contains(&y) {
+        continue; // reform seam: covered (with its known findings) by the catalogue windows
+      }
+      wins.push(Window { start: Start::Ymd(y, 1, 15), days: 2 });
+    }
+  }
   walk_days(ctx, "Trace_C07", wins, line)
 }
